@@ -221,54 +221,96 @@ def check(ctx):
         e = hb.site_expr(s)
         ctx.ob("expiry", "retain runs on the slot of the cursor with this closure", "self.heartbeat_index.0" in render(e[2][0]) and "self.backoffs_by_heartbeat" in render(e[2][0])
                and gs.closure_arg(prog, hb, e) is hc, s.loc(), render(e[2][0])[:160])
-    # keep: definitions
-    # the verdict local is identified by role: it is what the retain closure returns
+    # ---- the verdict of the retain closure (`keep`), identified by role: it is what the closure returns.  It is either computed
+    # inline (a bool assigned in the arms of a match on the lookup) or by ONE crate-local helper called with the lookup, the slack
+    # and `now`; the helper is summarised with the same clauses and the actual arguments are substituted.
     _rv = [x for _, x in gs.ret_exprs(hc)]
-    if len(_rv) != 1 or _rv[0][0] != "local":
-        raise mir.RuleError("expiry closure does not return a single verdict local: %s" % [render(x) for x in _rv])
-    kl = _rv[0][1]
-    kdefs = hc.defs.get(kl, [])
-    good_defs = 0
-    for d in kdefs:
-        site = mir.Site(hc, d[1], d[2])
-        e = hc.rvalue_expr(d[3]) if d[0] == "stmt" else hc.call_expr(d[3], d[1])
-        if e[0] == "const" and e[1] == 0:
-            good_defs += 1
-            continue
-        r = render(e)
-        # unwrap_or(map(checked_add(time, slack), |b| b > now), false)   or  time > now  directly
-        inner = gs.closure_arg(prog, hc, e) if e[0] == "call" else None
-        ok = False
-        why = r[:200]
-        if inner is not None and re.search(r"Option::unwrap_or$", strip_generics(e[1])) and e[2][1][0] == "const" and e[2][1][1] == 0:
-            ie = [x for _, x in gs.ret_exprs(inner)]
-            rel = gs.ord_rel(ie[0], "true") if len(ie) == 1 else None
-            if rel is not None:
-                small, large, _ = rel
-                time_src = [c for c in gs.calls(e, r"get_backoff_time_from_backoffs$")]
-                ok = (is_up(small, UP_NOW) and large[0] in ("arg", "local")
-                      and bool(time_src) and is_up(time_src[0][2][0], UP_BK)
-                      and gs.has_call(e, r"Instant::checked_add$"))
-                why = "keep = (expiry %s now) where expiry = %s" % (">" if rel[2] else ">=", r[:140])
-        ctx.ob("expiry", "keep <=> expiry(+slack) > now", ok, site.loc(), why)
-        good_defs += 1 if ok else 0
-    ctx.ob("expiry", "floor:keep definitions", len(kdefs) >= 2 and good_defs == len(kdefs), nontrivial=False, msg="%d defs" % len(kdefs))
-    # the constant-false definition is the `no entry` arm
-    for d in kdefs:
-        e = hc.rvalue_expr(d[3]) if d[0] == "stmt" else None
-        if e is not None and e[0] == "const" and e[1] == 0:
-            site = mir.Site(hc, d[1], d[2])
-            ctx.guarded("expiry", "keep = false only without a stored backoff", site,
-                        lambda c, r, l: l == "None" and c[0] == "discr" and c[1][0] == "call" and re.search(r"get_backoff_time_from_backoffs$", strip_generics(c[1][1])) is not None and is_up(c[1][2][0], UP_BK),
-                        "constant false only on the None edge of the lookup")
+    if len(_rv) != 1:
+        raise mir.RuleError("expiry closure has %d return definitions" % len(_rv))
+    V = _rv[0]
+    kl = V[1] if V[0] == "local" else None
+    by_path = {b.npath: b for b in prog.bodies(G)}
+
+    def is_lookup(x):
+        """`get_backoff_time_from_backoffs(<the captured backoffs map>, topic, peer)` evaluated in the closure"""
+        return x[0] == "call" and re.search(r"get_backoff_time_from_backoffs$", strip_generics(x[1])) is not None and is_up(x[2][0], UP_BK)
+
+    def analyse(body, leaves, opt_is, now_is, label):
+        """clauses on the definitions of the verdict inside `body`: constant false only on the None edge of the Option<Instant>
+        `opt_is` recognises; any other definition is unwrap_or(map(checked_add(<opt>@Some.0, slack), |b| b > now), false) with
+        `now_is` recognising what the inner closure captured as now"""
+        good = 0
+        for site, e in leaves:
+            if e[0] == "const" and e[1] == 0:
+                edges = body.guard_edges(lambda c, r, l: l == "None" and c[0] == "discr" and opt_is(c[1]))
+                edges = body.derive_edges(edges, None)
+                ok = bool(edges) and body.must_pass_edges(site.bb, edges)
+                ctx.ob("expiry", "keep = false only without a stored backoff", ok, site.loc(), "%sconstant false only on the None edge of the lookup" % label)
+                good += 1 if ok else 0
+                continue
+            ok = False
+            why = render(e)[:200]
+            inner = gs.closure_arg(prog, body, e) if e[0] == "call" else None
+            if inner is not None and re.search(r"Option::unwrap_or$", strip_generics(e[1])) and e[2][1][0] == "const" and e[2][1][1] == 0:
+                ie = [x for _, x in gs.ret_exprs(inner)]
+                rel = gs.ord_rel(ie[0], "true") if len(ie) == 1 else None
+                if rel is not None:
+                    small, large, _ = rel
+                    cap = gs.upvar_exprs(prog, body, inner).get(small[1].lstrip("*")) if small[0] == "upvar" else None
+                    adds = gs.calls(e, r"Instant::checked_add$")
+                    t0 = adds[0][2][0] if adds else ("unknown", "?")
+                    if t0[0] == "field" and t0[2] == "0":
+                        t0 = t0[1]
+                    ok = (cap is not None and now_is(gs.expand(body, cap)) and large[0] in ("arg", "local") and bool(adds)
+                          and t0[0] == "downcast" and t0[2] == "Some" and opt_is(t0[1]))
+                    why = "%skeep = (expiry %s now) where expiry = %s" % (label, ">" if rel[2] else ">=", render(e)[:140])
+            ctx.ob("expiry", "keep <=> expiry(+slack) > now", ok, site.loc(), why)
+            good += 1 if ok else 0
+        return good
+    lookups = []
+    if kl is not None:
+        kdefs = hc.defs.get(kl, [])
+        leaves = [(mir.Site(hc, d[1], d[2]), hc.rvalue_expr(d[3]) if d[0] == "stmt" else hc.call_expr(d[3], d[1])) for d in kdefs]
+        good = analyse(hc, leaves, is_lookup, lambda x: is_up(x, UP_NOW), "")
+        for _, e in leaves:
+            lookups += [c for c in gs.calls(e, r"get_backoff_time_from_backoffs$") if is_lookup(c)]
+        for bi in sorted(hc.live):
+            info = hc.switch_info(bi)
+            if info and info[0][0] == "discr" and is_lookup(info[0][1]):
+                lookups.append(info[0][1])
+        n_leaves = len(leaves)
+    else:
+        Vx = gs.expand(hc, V)
+        helper = by_path.get(strip_generics(Vx[1])) if Vx[0] == "call" else None
+        if helper is None or helper.kind == "closure":
+            raise mir.RuleError("expiry verdict is neither a bool computed in the closure nor a crate-local helper call: %s" % render(Vx)[:120])
+        ctx.use(helper)
+        opt_i = [i for i in range(1, helper.argc + 1) if re.search(r"Option<web_time::Instant>", helper.locals[i])]
+        now_i = [i for i, a in enumerate(Vx[2], 1) if is_up(a, UP_NOW)]
+        look_i = [i for i, a in enumerate(Vx[2], 1) if is_lookup(a)]
+        ctx.ob("expiry", "helper receives the lookup of this (topic, peer) and this heartbeat's now", len(opt_i) == 1 and look_i == opt_i and len(now_i) == 1, "%s:%d" % (hc.file, hc.line),
+               "%s(%s)" % (helper.short, ", ".join(render(a)[-50:] for a in Vx[2])))
+        leaves = []
+        for site, e in gs.ret_exprs(helper):
+            leaves += gs._bool_leaves_at(helper, site, e, 0, set())
+        oi = opt_i[0] if opt_i else -1
+        ni = now_i[0] if now_i else -1
+        good = analyse(helper, leaves, lambda x: gs.is_arg(gs.expand(helper, x), oi), lambda x: gs.is_arg(x, ni), "via %s: " % helper.short.split("::")[-1])
+        lookups = [a for a in Vx[2] if is_lookup(a)]
+        n_leaves = len(leaves)
+    ctx.ob("expiry", "floor:keep definitions", n_leaves >= 2 and good == n_leaves, nontrivial=False, msg="%d defs, %d good" % (n_leaves, good))
+
+    def not_keep(c, r, l):
+        if l != "false":
+            return False
+        return (c[0] == "local" and c[1] == kl) if kl is not None else render(c) == render(gs.expand(hc, V))
     for s in h_rm_peer:
         e = hc.site_expr(s)
-        ctx.guarded("expiry", "per-peer removal only when keep is false", s, lambda c, r, l: l == "false" and c[0] == "local" and c[1] == kl, "if !keep")
+        ctx.guarded("expiry", "per-peer removal only when keep is false", s, not_keep, "if !keep")
         # same key: the element's peer is removed from the element's topic map
         a0 = gs.xrender(hc, e[2][0])
         a1 = render(e[2][1])
-        look = gs.calls(gs.expand(hc, ("local", kl, hc.names.get(kl))), r"get_backoff_time_from_backoffs$") or \
-            [c for d in kdefs if d[0] == "call" for c in gs.calls(hc.call_expr(d[3], d[1]), r"get_backoff_time_from_backoffs$")]
+        look = lookups
         lk = [render(a) for a in look[0][2]] if look else []
         ok = len(lk) == 3 and a1 == lk[2] and ("clone(%s)" % lk[1]) in a0 and ("HashMap::entry(%s, " % lk[0]) in a0 and bool(look) and is_up(look[0][2][0], UP_BK)
         ctx.ob("expiry", "removed key = the key whose expiry was tested", ok, s.loc(), "remove(%s, %s) vs lookup%s" % (a0[-120:], a1, lk[1:]))
@@ -284,7 +326,7 @@ def check(ctx):
             return False
         ctx.guarded("expiry", "topic map dropped only when empty", s, empty_pred,
                     "OccupiedEntry::remove (forgets every peer of the topic) only on an edge proving the inner map is empty")
-        ctx.guarded("expiry", "topic map dropped only while expiring an entry", s, lambda c, r, l: l == "false" and c[0] == "local" and c[1] == kl, "if !keep")
+        ctx.guarded("expiry", "topic map dropped only while expiring an entry", s, not_keep, "if !keep")
         # no mutation of the inner map between the emptiness test and the drop is possible: the per-peer removal precedes the test
         tests = [bi for bi in hc.live if hc.switch_info(bi) and empty_pred(hc.switch_info(bi)[0], render(hc.switch_info(bi)[0]), "true")]
         ok = bool(tests) and all(hc.must_pass_nodes([0], [t], lib.bbs(h_rm_peer)) for t in tests) and \
@@ -292,23 +334,45 @@ def check(ctx):
         ctx.ob("expiry", "emptiness is tested after the per-peer removal", ok, s.loc(), "remove(peer) dominates the is_empty test and is not repeated after it")
     # the closure's verdict is `keep`
     rets = [render(x) for _, x in gs.ret_exprs(hc)]
-    ctx.ob("expiry", "slot keeps the pair iff keep", len(rets) == 1 and len(kdefs) >= 2, "%s:%d" % (hc.file, hc.line), "retain closure returns the verdict local %s" % rets)
+    ctx.ob("expiry", "slot keeps the pair iff keep", len(rets) == 1 and n_leaves >= 2, "%s:%d" % (hc.file, hc.line), "retain closure returns the verdict local %s" % rets)
 
     # ------------------------------------------------------------------ (4) queries
     q = ctx.body(G, BS + r"is_backoff_with_slack$")
-    rq = gs.ret_exprs(q)
-    ok = False
-    msg = "?"
-    if len(rq) == 1:
-        e = rq[0][1]
-        msg = render(e)[:200]
-        cl = gs.closure_arg(prog, q, e) if e[0] == "call" else None
-        qt, qp = gs.argname(q, gs.arg_of_type(q, r"^&topic::TopicHash$")), gs.argname(q, gs.arg_of_type(q, r"^&libp2p_identity::PeerId$"))
-        if cl is not None and re.search(r"Option::is_some_and$", strip_generics(e[1])) and render(e[2][0]) == "std::collections::HashMap::get(self.backoffs, %s)" % qt:
-            ce = [x for _, x in gs.ret_exprs(cl)]
-            ok = len(ce) == 1 and re.match(r"^std::collections::HashMap::contains_key\(\w+, \^\*?" + re.escape(qp) + r"\)$", render(ce[0])) is not None
-            msg += " / closure: %s" % [render(x) for x in ce]
-    ctx.ob("query", "is_backoff_with_slack <=> key present", ok, "%s:%d" % (q.file, q.line), msg)
+    qt_i, qp_i = gs.arg_of_type(q, r"^&topic::TopicHash$"), gs.arg_of_type(q, r"^&libp2p_identity::PeerId$")
+
+    def topic_map(x):
+        """`self.backoffs.get(topic)` of this function's topic parameter"""
+        return x[0] == "call" and re.search(r"HashMap::get$", strip_generics(x[1])) is not None and render(x[2][0]) == "self.backoffs" and gs.is_arg(x[2][1], qt_i)
+    leaves = []
+    for site, e in gs.ret_exprs(q):
+        leaves += gs._bool_leaves_at(q, site, e, 0, set())
+    ok = bool(leaves)
+    pos = 0
+    msgs = []
+    for site, e in leaves:
+        x = gs.expand(q, e)
+        msgs.append(render(x)[:110])
+        if x[0] == "const" and x[1] == 0:
+            # `false` only when the topic has no map (match form)
+            edges = q.derive_edges(q.guard_edges(lambda c, r, l: l == "None" and c[0] == "discr" and topic_map(gs.expand(q, c[1]))), None)
+            ok = ok and bool(edges) and q.must_pass_edges(site.bb, edges)
+        elif x[0] == "call" and re.search(r"Option::is_some_and$", strip_generics(x[1])) and topic_map(x[2][0]):
+            cl = gs.closure_arg(prog, q, x)
+            ce = [y for _, y in gs.ret_exprs(cl)] if cl is not None else []
+            good = len(ce) == 1 and ce[0][0] == "call" and re.search(r"HashMap::contains_key$", strip_generics(ce[0][1])) is not None and ce[0][2][0][0] == "arg" \
+                and ce[0][2][1][0] == "upvar" and gs.is_arg(gs.expand(q, gs.upvar_exprs(prog, q, cl).get(ce[0][2][1][1].lstrip("*"), ("?",))), qp_i)
+            ok = ok and good
+            pos += 1
+            msgs[-1] += " / closure: %s" % [render(y) for y in ce]
+        elif x[0] == "call" and re.search(r"HashMap::contains_key$", strip_generics(x[1])) and gs.is_arg(x[2][1], qp_i):
+            m0 = x[2][0]
+            if m0[0] == "field" and m0[2] == "0":
+                m0 = m0[1]
+            ok = ok and m0[0] == "downcast" and m0[2] == "Some" and topic_map(m0[1])
+            pos += 1
+        else:
+            ok = False
+    ctx.ob("query", "is_backoff_with_slack <=> key present", ok and pos >= 1, "%s:%d" % (q.file, q.line), " | ".join(msgs))
     gt_ = ctx.body(G, BS + r"get_backoff_time$")
     rg = [render(x) for _, x in gs.ret_exprs(gt_)]
     gtt, gtp = gs.argname(gt_, gs.arg_of_type(gt_, r"^&topic::TopicHash$")), gs.argname(gt_, gs.arg_of_type(gt_, r"^&libp2p_identity::PeerId$"))
